@@ -427,7 +427,7 @@ def lifecycle_cases(requests=('incr', 'decr', 'set', 'restart', 'reload',
                     extra_watcher_opts=None, kill_cmd=False, signal_cmd=False,
                     respawn_false=False, rm=False, quit=False,
                     set_other=False, config=False, job_control=False,
-                    ondemand=False, capture=False):
+                    ondemand=False, capture=False, never_exec=False):
     """General history generator shared by several properties."""
     from hypothesis import strategies as st
 
@@ -635,5 +635,19 @@ def lifecycle_cases(requests=('incr', 'decr', 'set', 'restart', 'reload',
         elif draw(st.integers(0, 3)) == 0:
             c["arbiter"] = {"warmup_delay": draw(st.sampled_from(
                 [0.05, 0.2]))}
+        if never_exec:
+            # "fail to spawn": the documented max_retry values (-1 = retry
+            # indefinitely) and a command that can never be executed
+            if draw(st.integers(0, 5)) == 0:
+                for wc in watchers:
+                    if draw(st.booleans()):
+                        wc["max_retry"] = draw(st.sampled_from(
+                            [-1, -1, 0, 1, 3]))
+            if draw(st.integers(0, 5)) == 0:
+                c["default_beh"] = {"react": "die", "delay": 0.0,
+                                    "exec_fail": draw(st.sampled_from(
+                                        [True, True, 'value']))}
+                if draw(st.booleans()):
+                    c["tape"] = c["tape"][:draw(st.integers(0, 4))]
         return c
     return case()
